@@ -14,7 +14,10 @@
 (* re-serialised and padded to the block size to form the associated data).    *)
 (* An Envelope object can be asked again: after the first attempt (whatever    *)
 (* its outcome) a second decrypt() with the right key and associated data must *)
-(* behave like a first one.                                                    *)
+(* behave like a first one; and after that (a plaintext may have been         *)
+(* returned by then) a third decrypt() with a wrong key or with other           *)
+(* associated data must still fail: what an attempt returns depends on what    *)
+(* that attempt was given, not on what the object returned before.             *)
 EXTENDS Integers, Sequences, FiniteSets, TLC
 
 Tampers == {"none", "attr-value", "attr-name", "attr-type", "keyhash", "iv", "aad", "ct-first", "ct-last", "ct-padding", "tag", "tag-size", "cryptofooter"}
@@ -28,38 +31,48 @@ VARIABLES sealed,   \* [len, extra (number of extra attributes), aad (sealed wit
           given,    \* [key ("right"/"wrong"), aad ("same"/"none"/"other")]
           phase, out,
           buf, k,   \* private plaintext buffer (sequence of chunk numbers) and chunks processed
-          attempt, first   \* 1 or 2; outcome of the first attempt
-vars == <<sealed, given, phase, out, buf, k, attempt, first>>
+          attempt, first,  \* 1, 2 or 3; outcome of the first attempt
+          second, third    \* outcome of the second attempt; what the third attempt is given ("wrong-key" / "other-aad")
+vars == <<sealed, given, phase, out, buf, k, attempt, first, second, third>>
 
 Init == /\ sealed \in [len : LenClasses, extra : 0..2, aad : BOOLEAN, tamper : Tampers, fill : Fills]
         /\ given \in [key : {"right", "wrong"}, aad : {"same", "none", "other"}]
         /\ phase = "start" /\ out = "nothing" /\ buf = <<>> /\ k = 0 /\ attempt = 1 /\ first = "none"
+        /\ second = "none" /\ third = "none"
 
 \* what the reader is given in the current attempt
-G == IF attempt = 1 THEN given ELSE [key |-> "right", aad |-> IF sealed.aad THEN "same" ELSE "none"]
+G == IF attempt = 1 THEN given
+     ELSE IF attempt = 2 THEN [key |-> "right", aad |-> IF sealed.aad THEN "same" ELSE "none"]
+     ELSE [key |-> IF third = "wrong-key" THEN "wrong" ELSE "right",
+           aad |-> IF third = "other-aad" THEN "other" ELSE IF sealed.aad THEN "same" ELSE "none"]
 \* does the authenticated data the reader feeds to GCM equal what was sealed?
 AadMatches == IF sealed.aad THEN G.aad = "same" ELSE G.aad \in {"none", "same"}
 HeaderIntact == sealed.tamper \notin {"attr-value", "attr-name", "attr-type", "iv"}
 BodyIntact   == sealed.tamper \notin {"ct-first", "ct-last", "ct-padding", "cryptofooter", "tag", "tag-size"}
 
-ParseHeader == phase = "start" /\ phase' = "parsed" /\ UNCHANGED <<sealed, given, out, buf, k, attempt, first>>
+ParseHeader == phase = "start" /\ phase' = "parsed" /\ UNCHANGED <<sealed, given, out, buf, k, attempt, first, second, third>>
 KeyHashGate == /\ phase = "parsed"
                /\ phase' = IF G.key = "right" /\ sealed.tamper # "keyhash" THEN "keyok" ELSE "failed"
-               /\ UNCHANGED <<sealed, given, out, buf, k, attempt, first>>
+               /\ UNCHANGED <<sealed, given, out, buf, k, attempt, first, second, third>>
 DecryptChunk == /\ phase = "keyok" /\ k < NChunks(sealed.len)
                 /\ k' = k + 1 /\ buf' = Append(buf, k + 1)
-                /\ UNCHANGED <<sealed, given, phase, out, attempt, first>>
+                /\ UNCHANGED <<sealed, given, phase, out, attempt, first, second, third>>
 DecryptVerify == /\ phase = "keyok" /\ k = NChunks(sealed.len)
                  /\ IF HeaderIntact /\ BodyIntact /\ AadMatches /\ sealed.tamper # "aad"
                     THEN phase' = "returned" /\ out' = buf
                     ELSE phase' = "failed" /\ out' = "nothing"
-                 /\ UNCHANGED <<sealed, given, buf, k, attempt, first>>
+                 /\ UNCHANGED <<sealed, given, buf, k, attempt, first, second, third>>
 \* the same object is asked again, now with the right key and the associated data it was sealed with
 Again == /\ attempt = 1 /\ phase \in {"returned", "failed"}
          /\ attempt' = 2 /\ first' = phase
          /\ phase' = "parsed" /\ out' = "nothing" /\ buf' = <<>> /\ k' = 0
-         /\ UNCHANGED <<sealed, given>>
-Next == ParseHeader \/ KeyHashGate \/ DecryptChunk \/ DecryptVerify \/ Again
+         /\ UNCHANGED <<sealed, given, second, third>>
+\* and once more, now with something wrong: another key, or other associated data
+AgainWrong == /\ attempt = 2 /\ phase \in {"returned", "failed"}
+              /\ attempt' = 3 /\ second' = phase /\ third' \in {"wrong-key", "other-aad"}
+              /\ phase' = "parsed" /\ out' = "nothing" /\ buf' = <<>> /\ k' = 0
+              /\ UNCHANGED <<sealed, given, first>>
+Next == ParseHeader \/ KeyHashGate \/ DecryptChunk \/ DecryptVerify \/ Again \/ AgainWrong
 NoNext == FALSE /\ UNCHANGED vars
 Spec == Init /\ [][Next]_vars
 
@@ -70,4 +83,6 @@ ReturnsOnlyThePayload == phase = "returned" => out = Payload(sealed.len)
 AuthFailsClosed == (Done /\ (sealed.tamper # "none" \/ G.key = "wrong" \/ ~AadMatches)) => phase = "failed"
 \* asking again is like asking for the first time: the second outcome depends on the file only
 SecondLikeFirst == (attempt = 2 /\ Done) => (phase = "returned" <=> sealed.tamper = "none")
+\* an earlier success buys nothing: the third attempt (wrong key / other associated data) fails whatever came before
+ThirdStillChecked == (attempt = 3 /\ Done) => (phase = "failed" /\ out = "nothing")
 =============================================================================
